@@ -157,6 +157,8 @@ def run(ctx):
             sol = k5_case(ctx, inst)
             if it == 0 and sol is not None:
                 ctx.rep.sample({"suite": "K5", "instance": inst, "routes": sol[models.route_key(cls)]})
+        for it in range(max(2, per // 2)):          # node-weighted input (with additional starts/ends)
+            k5_case(ctx, models.node_instance(rng, cls), suite="K5.node_mode")
 
 
 def finding_case(ctx, inp):
